@@ -39,7 +39,10 @@ class C11(core.Prop):
             raise core.Inconclusive()
         labels = set()
         if not log.done:
-            oc.bad(timing.crash_sig(log), "the interpreter did not finish: " + log.crash_text())
+            sig = timing.crash_sig(log)
+            if sig.startswith("run-crashed:signal") and lifecycle.exception_wakes_suspended_actor(log):
+                sig = lifecycle.EXC_WAKES + ":" + sig
+            oc.bad(sig, "the interpreter did not finish: " + log.crash_text())
             return oc
         lifecycle.check_c11(case, log, oc, labels)
         oc.labels = sorted(labels)
